@@ -15,6 +15,7 @@ import (
 	"sort"
 	"strconv"
 	"strings"
+	"unicode"
 	"unicode/utf8"
 
 	"github.com/goatcms/goatcore/zzverif/nd"
@@ -291,4 +292,39 @@ func ZZModelMapSlice() {
 	sort.Slice(ys, func(i, j int) bool { return ys[i] < ys[j] })
 	nd.Assert(ys[0] <= ys[1] && ys[1] <= ys[2] && ys[0]+ys[1]+ys[2] == sum, "MODELS/sort.Slice")
 	nd.Reach("MODELS/mapslice-end")
+}
+
+// ZZModelUnicode: unicode.IsSpace / strings.TrimSpace on symbolic bytes
+// against the byte-level definition for ASCII and Latin-1 input.
+func ZZModelUnicode() {
+	c := nd.Byte("c")
+	want := nd.Or(nd.Or(nd.And(c >= 9, c <= 13), c == ' '), nd.Or(c == 0x85, c == 0xa0))
+	nd.Assert(unicode.IsSpace(rune(c)) == want, "MODELS/unicode.IsSpace")
+	s := nd.StringUpTo("s", nd.Param("N", 3))
+	for i := 0; i < len(s); i++ {
+		// no lead byte of a three-byte space (the model declines those)
+		nd.Assume(nd.Or(s[i] < 0xe1, s[i] > 0xe3))
+	}
+	// reference: ASCII spaces and the two-byte spaces C2 85, C2 A0
+	lo, hi := 0, len(s)
+	for lo < hi {
+		if inSet(s[lo], " \t\n\v\f\r") {
+			lo++
+		} else if lo+1 < hi && s[lo] == 0xc2 && (s[lo+1] == 0x85 || s[lo+1] == 0xa0) {
+			lo += 2
+		} else {
+			break
+		}
+	}
+	for hi > lo {
+		if inSet(s[hi-1], " \t\n\v\f\r") {
+			hi--
+		} else if hi-2 >= lo && s[hi-2] == 0xc2 && (s[hi-1] == 0x85 || s[hi-1] == 0xa0) {
+			hi -= 2
+		} else {
+			break
+		}
+	}
+	nd.Assert(strings.TrimSpace(s) == s[lo:hi], "MODELS/strings.TrimSpace")
+	nd.Reach("MODELS/unicode-end")
 }
